@@ -564,6 +564,15 @@ func (l *Log) buildQuery(ob *Obligation, extraPrelude string) string {
 			}
 		}
 	}
+	if ob.Smoke {
+		// vacuity checks look at everything
+		for i, s := range secs {
+			included[i] = true
+			for sym := range s.syms {
+				rel[sym] = true
+			}
+		}
+	}
 	var sb strings.Builder
 	sb.WriteString(prelude)
 	for i, s := range secs {
